@@ -559,8 +559,47 @@ func fuzzCase(r *rng.R, s *rawSess, port int) (string, string) {
 	return fmt.Sprintf("%T", req), string(b)
 }
 
-// block: a client that sends requests and never reads the answers, and the canary's latency meanwhile
+// the server's default write deadline for responses (uasc defaultResponseWriteTimeout)
+const responseDeadline = 5 * time.Second
+
+// canaryWrite writes the canary node (a change of a monitored node is handed to the subscriptions' workers)
+func (k *canary) write(v int32, timeout time.Duration) (time.Duration, error) {
+	t0 := time.Now()
+	_, err := k.c.call(&ua.WriteRequest{NodesToWrite: []*ua.WriteValue{{NodeID: ua.NewStringNodeID(k.ns, "canary"), AttributeID: ua.AttributeIDValue,
+		Value: &ua.DataValue{EncodingMask: ua.DataValueValue, Value: ua.MustVariant(v)}}}}, k.tok, timeout)
+	return time.Since(t0), err
+}
+
+// flood sends Browse requests with large answers on a raw session and never reads; returns when told or when the write blocks
+func flood(s *rawSess, stop chan struct{}, sent *int) {
+	for {
+		select {
+		case <-stop:
+			return
+		default:
+		}
+		q := &ua.BrowseRequest{View: &ua.ViewDescription{ViewID: ua.NewTwoByteNodeID(0)}}
+		for j := 0; j < 20; j++ {
+			q.NodesToBrowse = append(q.NodesToBrowse, &ua.BrowseDescription{NodeID: ua.NewNumericNodeID(0, 2253), BrowseDirection: ua.BrowseDirectionBoth, ReferenceTypeID: ua.NewTwoByteNodeID(0), IncludeSubtypes: true, ResultMask: 63})
+		}
+		s.conn.SetWriteDeadline(time.Now().Add(500 * time.Millisecond))
+		if err := s.send(q); err != nil {
+			return
+		}
+		*sent++
+	}
+}
+
+// block: clients that send requests and never read the answers, and the canary's latency meanwhile.
+// Scenario "flood": one such client. Scenario "subscription": the stalled client also owns a subscription with a monitored
+// item on the canary node and queued publish requests, and the canary changes that node 150 times.
 func block() {
+	for _, scenario := range []string{"flood", "subscription"} {
+		blockScenario(scenario)
+	}
+}
+
+func blockScenario(scenario string) {
 	ch := spawnServer()
 	defer func() {
 		if ch.alive() {
@@ -568,59 +607,91 @@ func block() {
 		}
 	}()
 	url := fmt.Sprintf("opc.tcp://localhost:%d", ch.port)
+	out := map[string]any{"t": "block", "scenario": scenario, "stalled_clients": 1, "deadline_ms": float64(responseDeadline.Milliseconds())}
+	fail := func(what string, err error) { out["err"] = what + ": " + err.Error(); emit(out) }
 	can, err := newCanary(url)
 	if err != nil {
-		emit(map[string]any{"t": "block", "err": "canary: " + err.Error()})
+		fail("canary", err)
 		return
 	}
 	base, err := can.ping(3 * time.Second)
 	if err != nil {
-		emit(map[string]any{"t": "block", "err": "canary: " + err.Error()})
+		fail("canary", err)
 		return
 	}
 	s, err := openRawSession(ch.port)
 	if err != nil {
-		emit(map[string]any{"t": "block", "err": "raw session: " + err.Error()})
+		fail("raw session", err)
 		return
 	}
 	if tc, ok := s.conn.(*net.TCPConn); ok {
 		tc.SetReadBuffer(4096)
 	}
-	// flood: browse requests with large answers, never read
+	if scenario == "subscription" {
+		if err := s.send(&ua.CreateSubscriptionRequest{RequestedPublishingInterval: 20, RequestedLifetimeCount: 100000, RequestedMaxKeepAliveCount: 100000, PublishingEnabled: true}); err != nil {
+			fail("create subscription", err)
+			return
+		}
+		_, body, err := readMessage(s.conn, 3*time.Second)
+		if err != nil {
+			fail("create subscription", err)
+			return
+		}
+		_, svc, _ := ua.DecodeService(body)
+		cs, ok := svc.(*ua.CreateSubscriptionResponse)
+		if !ok {
+			fail("create subscription", fmt.Errorf("answer %T", svc))
+			return
+		}
+		if err := s.send(&ua.CreateMonitoredItemsRequest{SubscriptionID: cs.SubscriptionID, ItemsToCreate: []*ua.MonitoredItemCreateRequest{{
+			ItemToMonitor:  &ua.ReadValueID{NodeID: ua.NewStringNodeID(1, "canary"), AttributeID: ua.AttributeIDValue, DataEncoding: &ua.QualifiedName{}},
+			MonitoringMode: ua.MonitoringModeReporting, RequestedParameters: &ua.MonitoringParameters{ClientHandle: 1, Filter: ua.NewExtensionObject(nil), QueueSize: 1}}}}); err != nil {
+			fail("create item", err)
+			return
+		}
+		if _, _, err := readMessage(s.conn, 3*time.Second); err != nil {
+			fail("create item", err)
+			return
+		}
+		for i := 0; i < 60; i++ { // publish requests for the worker to answer while nobody reads
+			if err := s.send(&ua.PublishRequest{}); err != nil {
+				break
+			}
+		}
+	}
 	stop := make(chan struct{})
 	sent := 0
-	go func() {
-		for {
-			select {
-			case <-stop:
-				return
-			default:
-			}
-			q := &ua.BrowseRequest{View: &ua.ViewDescription{ViewID: ua.NewTwoByteNodeID(0)}}
-			for j := 0; j < 20; j++ {
-				q.NodesToBrowse = append(q.NodesToBrowse, &ua.BrowseDescription{NodeID: ua.NewNumericNodeID(0, 2253), BrowseDirection: ua.BrowseDirectionBoth, ReferenceTypeID: ua.NewTwoByteNodeID(0), IncludeSubtypes: true, ResultMask: 63})
-			}
-			s.conn.SetWriteDeadline(time.Now().Add(500 * time.Millisecond))
-			if err := s.send(q); err != nil {
-				return
-			}
-			sent++
+	go flood(s, stop, &sent)
+	worst, answered, unanswered := time.Duration(0), 0, 0
+	// a request may wait for one write deadline per stalled client, plus slack for the handlers
+	bound := responseDeadline + 2*time.Second
+	t0 := time.Now()
+	for i := 0; time.Since(t0) < 9*time.Second; i++ {
+		var lat time.Duration
+		var err error
+		if scenario == "subscription" && i < 150 {
+			lat, err = can.write(int32(i), bound+2*time.Second)
+		} else {
+			time.Sleep(100 * time.Millisecond)
+			lat, err = can.ping(bound + 2*time.Second)
 		}
-	}()
-	worst := time.Duration(0)
-	blocked := false
-	for i := 0; i < 12; i++ {
-		time.Sleep(250 * time.Millisecond)
-		lat, err := can.ping(2 * time.Second)
 		if lat > worst {
 			worst = lat
 		}
 		if err != nil {
-			blocked = true
+			unanswered++
+			out["canary_error"] = err.Error()
 			break
 		}
+		answered++
 	}
 	close(stop)
-	emit(map[string]any{"t": "block", "baseline_ms": float64(base.Microseconds()) / 1000, "worst_ms": float64(worst.Microseconds()) / 1000,
-		"canary_blocked": blocked, "requests_sent": sent, "alive": ch.alive()})
+	out["baseline_ms"] = float64(base.Microseconds()) / 1000
+	out["worst_ms"] = float64(worst.Microseconds()) / 1000
+	out["bound_ms"] = float64(bound.Milliseconds())
+	out["canary_answered"] = answered
+	out["canary_blocked"] = unanswered > 0 || worst > bound
+	out["requests_sent"] = sent
+	out["alive"] = ch.alive()
+	emit(out)
 }
